@@ -119,7 +119,17 @@ def r3(ctx):
     # consumer side: plain blocking recv
     nx = ctx.body('<data::loading::Buffered as std::iter::Iterator>::next')
     rv = ret_values(nx)
-    ctx.require(len(rv) == 1 and match(rv[0][0], Call('Result::ok', Call('mpsc::Receiver::recv', ANY))), nx, 'buffered-recv',
+    RECV = Call('mpsc::Receiver::recv', ANY)
+    okrecv = len(rv) == 1 and match(rv[0][0], Call('Result::ok', RECV))
+    if not okrecv:
+        # the same thing written out: match rx.recv() { Ok(item) => Some(item), Err(_) => None }
+        from analysis.alts import ret_table
+        tbl = ret_table(ctx.facts, nx, lambda c: match(c, RECV)) or {}
+        okv = tbl.get('Ok', [])
+        okrecv = set(tbl) == {'Ok', 'Err'} and len(okv) == 1 and len(tbl['Err']) == 1 and \
+            match(peel(okv[0]), ('agg', 'adt', Pred(lambda n: n.endswith('Option::Some')), (Pred(lambda u: match(core(u), RECV) or match(core(u), ('field', ('variant', RECV, 'Ok'), 0))),))) and \
+            match(peel(tbl['Err'][0]), ('agg', 'adt', Pred(lambda n: n.endswith('Option::None')), ANY))
+    ctx.require(okrecv, nx, 'buffered-recv',
                 'Buffered::next = rx.recv().ok()', 'Buffered::next is %s' % [show_in(nx, v) for v, _ in rv])
     ch = [t for t in bn.calls(r'mpsc::sync_channel$')]
     ctx.require(len(ch) == 1 and match(core(sym(bn, ch[0].args[0])), ('arg', 2, ANY)), bn, 'buffered-capacity',
